@@ -23,6 +23,24 @@ def replay(spec):
     if spec.get("facet") == "reuse":
         from .ssa import replay_reuse
         return replay_reuse(spec)
+    if kind == "interface_reuse":
+        # one interface object handed to several simulations in a row (every mode): each run equals the first one on the same seed
+        from bioscrape.simulator import SafeModelCSimInterface
+        a = _args()
+        for cls in (ModelCSimInterface, SafeModelCSimInterface):
+            for kw in (dict(stochastic=False), dict(stochastic=True), dict(stochastic=True, delay=True), dict(stochastic=True, volume=1.5)):
+                M = Model(**a)
+                itf = cls(M)
+                outs = []
+                for rep in range(3):
+                    py_seed_random(3)
+                    outs.append(py_simulate_model(tp, Interface=itf, **kw).to_numpy())
+                for rep in (1, 2):
+                    if outs[rep].shape != outs[0].shape or not np.allclose(outs[rep], outs[0], equal_nan=True):
+                        problems.append("py_simulate_model(%s, Interface=one %s) run %d differs from run 1 (row at t=%s: %s vs %s)"
+                                        % (kw, cls.__name__, rep + 1, tp[5], outs[rep][5].tolist(), outs[0][5].tolist()))
+                        break
+        return {"reproduced": bool(problems), "observed": problems[:2], "expected": "the same output every time"}
     if kind == "twice":
         # the same model simulated twice (every mode): the second run equals the first and equals a fresh model's
         a = dict(_args(), rules=_args()["rules"] + [("assignment", {"equation": "A = 40"}, 1.0), ("additive", {"equation": "B = A + A"}, "start")])
